@@ -103,7 +103,7 @@ def check_pair(acc, sch, w, mod, tname, tags, va, vb, rng):
     for who, x, other in (('source', a, b), ('copy', b, a)):
         try:
             oother = observe(other, sch, tname)
-            changed = pyrt.mutate_in_place(x, sch, tname, rng)
+            changed = pyrt.mutate_in_place(x, sch, tname, rng, grow=True)
             now = observe(other, sch, tname)
         except Exception as e:  # noqa
             acc.violation(PROP, 'mutation-after-copy-raises:%s' % type(e).__name__,
